@@ -253,7 +253,7 @@ func registerMath(e *Engine) {
 	// ----- LegacyDec -----
 	in[M+"LegacyNewDecFromInt"] = func(p *Path, a []Value) Value {
 		x := p.nonNil(big_(a[0]), "NewDecFromInt")
-		return VDec{T: p.checkDecRange(Mul(x, IntC(ten18)))}
+		return VDec{T: p.checkDecRange(Mul(x, IntC(ten18))), IntPart: x}
 	}
 	in[M+"LegacyNewDec"] = func(p *Path, a []Value) Value { return VDec{T: Mul(tInt(a[0]), IntC(ten18))} }
 	in[M+"LegacyNewDecWithPrec"] = func(p *Path, a []Value) Value {
@@ -320,12 +320,23 @@ func registerMath(e *Engine) {
 		// mul precision twice, quo, chop with rounding
 		return roundHalfEvenDiv(GoQuo(Mul(x, IntC(new(big.Int).Mul(ten18, ten18))), y), ten18)
 	})
-	dbin("QuoTruncate", func(p *Path, x, y *Term) *Term {
+	quoTrunc := func(p *Path, a []Value) Value {
+		dx, dy := dec_(a[0]), dec_(a[1])
+		x := p.nonNilD(dx, "QuoTruncate")
+		y := p.nonNilD(dy, "QuoTruncate")
 		if !p.Decide(Not(Eq(y, IntC64(0)))) {
 			p.goPanicf("division by zero")
 		}
-		return GoQuo(GoQuo(Mul(x, IntC(new(big.Int).Mul(ten18, ten18))), y), IntC(ten18))
-	})
+		if dx.IntPart != nil && dy.IntPart != nil && p.provablyNonNeg(dx.IntPart) && p.provablyNonNeg(dy.IntPart) {
+			// floor(floor(A·10^18·10^36 / (B·10^18)) / 10^18) == floor(A·10^18 / B)   (A >= 0, B > 0)
+			A, B := dx.IntPart, dy.IntPart
+			r := Div(Mul(A, IntC(ten18)), B)
+			return VDec{T: p.checkDecRange(r), QuoA: A, QuoB: B}
+		}
+		return VDec{T: p.checkDecRange(GoQuo(GoQuo(Mul(x, IntC(new(big.Int).Mul(ten18, ten18))), y), IntC(ten18)))}
+	}
+	in[D+"QuoTruncate"] = quoTrunc
+	in[D+"QuoTruncateMut"] = quoTrunc
 	in[D+"MulInt"] = func(p *Path, a []Value) Value {
 		x := p.nonNilD(dec_(a[0]), "MulInt")
 		y := p.nonNil(big_(a[1]), "MulInt")
@@ -353,12 +364,26 @@ func registerMath(e *Engine) {
 	}
 	in[D+"Neg"] = func(p *Path, a []Value) Value { return VDec{T: Neg(p.nonNilD(dec_(a[0]), "Neg"))} }
 	in[D+"TruncateInt"] = func(p *Path, a []Value) Value {
-		x := p.nonNilD(dec_(a[0]), "TruncateInt")
+		d := dec_(a[0])
+		x := p.nonNilD(d, "TruncateInt")
+		if d.IntPart != nil {
+			return VBig{T: d.IntPart}
+		}
+		if d.QuoA != nil {
+			// floor(floor(A·10^18/B)/10^18) == floor(A/B)
+			return VBig{T: Div(d.QuoA, d.QuoB)}
+		}
 		return VBig{T: GoQuo(x, IntC(ten18))}
 	}
 	in[D+"TruncateInt64"] = func(p *Path, a []Value) Value {
-		x := p.nonNilD(dec_(a[0]), "TruncateInt64")
+		d := dec_(a[0])
+		x := p.nonNilD(d, "TruncateInt64")
 		q := GoQuo(x, IntC(ten18))
+		if d.IntPart != nil {
+			q = d.IntPart
+		} else if d.QuoA != nil {
+			q = Div(d.QuoA, d.QuoB)
+		}
 		ty := IntTy{64, true}
 		if !p.Decide(And(Ge(q, IntC(ty.Min())), Le(q, IntC(ty.Max())))) {
 			p.goPanicf("Int64() out of bound")
@@ -408,6 +433,19 @@ func registerMath(e *Engine) {
 		}
 		return VPtr{Obj: p.newObj(VOpaque{"big.Int"}, "bigint")}
 	}
+}
+
+// provablyNonNeg: t >= 0 follows from the term's interval or from the path condition.
+func (p *Path) provablyNonNeg(t *Term) bool {
+	if t.lo != nil && t.lo.Sign() >= 0 {
+		return true
+	}
+	if p.tolerant || p.sess == nil {
+		return false
+	}
+	p.sess.where = "nonneg-lemma " + p.where()
+	res, _ := p.sess.Check(Lt(t, IntC64(0)), nil)
+	return res == Unsat
 }
 
 func orB(x, def *big.Int) *big.Int {
